@@ -24,7 +24,7 @@ ASSUMPTIONS = ["UART: tuning word = t << 20 with a symbolic 12-bit t, in [2^30, 
                "SPISlave and timeline() are not covered (stated in OUTSIDE)"]
 BOUNDS = {"quick": "UART RX: BMC K=182 (one frame at 16 cycles/bit), transmitter rate -2% and +2%; UART TX: inductive step over all 32-bit tuning words (unbounded time) + BMC K=26; SPI K=30 (length<=4, divider<=3); I2C K=66; counters: one step from arbitrary state + one-shot BMC K=12",
           "thorough": "UART RX: one frame at 7 transmitter rates in +-2%, UART TX: inductive step + BMC K=38; SPI K=44 (length<=8, divider<=4); I2C K=86; counters as quick"}
-OUTSIDE = "UART RX at bit periods other than 16 cycles and transmitter rates between the enumerated ones; timeline() with more than 4 events or offsets > 12 (BMC K covers two full runs, the counter has <= 13 states); UART FIFO depths > 4; electrical timing; I2C clock stretching and multi-master"
+OUTSIDE = "UART RX at bit periods other than 16 cycles and transmitter rates between the enumerated ones; timeline() with more than 4 events or offsets > 12 (BMC K covers two full runs, the counter has <= 13 states); UART FIFO depths > 4; SPI master with more than 3 chip selects; watchdog reset_delay = 0 (the class default holds the SoC in reset permanently: WaitTimer(0).done is constant 1; SoC.add_watchdog never passes it); electrical timing; I2C clock stretching and multi-master"
 FUNCS = ["litex.soc.cores.uart.RS232ClkPhaseAccum", "litex.soc.cores.uart.RS232PHYTX", "litex.soc.cores.uart.RS232PHYRX", "litex.soc.cores.spi.spi_master.SPIMaster", "litex.soc.cores.i2c.I2CClockGen",
          "litex.soc.cores.i2c.I2CMasterMachine", "litex.soc.cores.timer.Timer", "litex.soc.cores.watchdog.Watchdog", "litex.gen.genlib.misc.WaitTimer", "litex.soc.cores.pwm.PWM", "litex.gen.genlib.misc.timeline", "litex.soc.cores.uart.UART",
          "litex.soc.cores.spi.spi_slave.SPISlave"]
